@@ -82,13 +82,33 @@ pub fn corpus(tier: &str) -> Corpus {
         gen::nfacts(1, &mut |cs| add(&mut c, cs, 31, 2));
     } else {
         // sized for about a minute on 16 cores (an interpreted case takes seconds)
-        gen::cut(0, &mut |cs| add(&mut c, cs, 2, 3));
+        gen::cut(0, &mut |cs| add(&mut c, cs, 3, 3));
         gen::not(0, &mut |cs| add(&mut c, cs, 53, 1));
         gen::core(0, &mut |cs| add(&mut c, cs, 83, 1));
         gen::lists(0, &mut |cs| add(&mut c, cs, 101, 3));
         gen::output(0, &mut |cs| add(&mut c, cs, 47, 1));
         gen::builtins(0, &mut |cs| add(&mut c, cs, 59, 1));
         gen::nfacts(0, &mut |cs| add(&mut c, cs, 37, 1));
+    }
+    // a cut directly inside an alternative of a disjunction (first, middle, last; then failing or
+    // succeeding; top-level or in a group to the right of a goal with several solutions)
+    let alts = ["$X = 1, !, fail", "$X = 1, !", "!, $X = 1", "q($X), !, r($X)", "!, fail"];
+    for (i, a1) in alts.iter().enumerate() {
+        if !thorough && i % 2 == 1 {
+            continue;
+        }
+        let shapes = [
+            format!("pick($X) :- {}; $X = 2.", a1),
+            format!("pick($X) :- $X = 0; {}; $X = 2.", a1),
+            format!("pick($X) :- $X = 0; {}.", a1),
+            format!("pick($X) :- q($Y), ({}; $X = 2).", a1),
+        ];
+        for sh in shapes.iter() {
+            c.with_cut += 1;
+            c.queries += 3;
+            *c.families.entry("cut-in-disjunction".into()).or_insert(0) += 1;
+            c.lines.push(format!("next\tpick($Z) ;; pick(2) ;; top($Z)\tq(a).\tq(b).\tr(b).\t{}\tpick(9).\ttop($X) :- pick($X), pick($Y).", sh));
+        }
     }
     // a variable aliased to a newer, still unbound variable (or the other way round) and then
     // dereferenced by a built-in: the binding chain leaves the part of the substitution set
